@@ -33,8 +33,12 @@ func NewSPDX23() *SPDX23 {
 
 func (s *SPDX23) Render(doc interface{}, wr io.Writer, o *native.RenderOptions, _ interface{}) error {
 	// TODO: add support for XML
+	indent := 0
+	if o != nil && o.Indent > 0 {
+		indent = o.Indent
+	}
 	encoder := json.NewEncoder(wr)
-	encoder.SetIndent("", strings.Repeat(" ", o.Indent))
+	encoder.SetIndent("", strings.Repeat(" ", indent))
 	if err := encoder.Encode(doc.(*spdx.Document)); err != nil {
 		return fmt.Errorf("encoding sbom to stream: %w", err)
 	}
@@ -49,6 +53,9 @@ func (s *SPDX23) Serialize(bom *sbom.Document, _ *native.SerializeOptions, _ int
 	}
 	if bom.Metadata == nil {
 		return nil, errors.New("document metadata is nil, unable to serialize to SPDX 2.3")
+	}
+	if bom.NodeList == nil {
+		return nil, errors.New("document node list is nil, unable to serialize to SPDX 2.3")
 	}
 	doc := &spdx.Document{
 		SPDXVersion:       spdx.Version,
@@ -329,7 +336,7 @@ func (s *SPDX23) buildPackages(bom *sbom.Document) ([]*spdx.Package, error) { //
 			})
 		}
 
-		if len(node.Suppliers) > 0 {
+		if len(node.Suppliers) > 0 && node.Suppliers[0] != nil {
 			// TODO(degradation): URL, Phone are lost if set
 			// TODO(degradation): If is more than one supplier, it will be lost
 			p.PackageSupplier = &spdx.Supplier{
@@ -338,7 +345,7 @@ func (s *SPDX23) buildPackages(bom *sbom.Document) ([]*spdx.Package, error) { //
 			}
 		}
 
-		if len(node.Originators) > 0 {
+		if len(node.Originators) > 0 && node.Originators[0] != nil {
 			// TODO(degradation): URL, Phone are lost if set
 			// TODO(degradation): If is more than one originator, it will be lost
 			p.PackageOriginator = &common.Originator{
